@@ -203,7 +203,7 @@ def run(ctx):
         validate(ctx, events, [("set-dryrun", q, ("oor",), "ok1", raised)], 1024, 2 ** 21, "dry-run")
         ctx.case(("dryrun", q))
     # ------------------------------------------------------------------ 2. random histories with the real constants
-    for tr in range(12 if T else 4):
+    for tr in range(40 if T else 4):
         ppg = new_ppg()
         events, meta = [], []
         for step in range(40):
@@ -245,7 +245,7 @@ def run(ctx):
         validate(ctx, events, meta, 1024, 2 ** 21, "random history (real constants)")
     # ------------------------------------------------------------------ 3. SYNC
     events, meta = [], []
-    for k in range(120 if T else 40):
+    for k in range(400 if T else 40):
         order = rnd.choice([7, 7, 9])
         sps = rnd.choice([2, 4, 8])
         slots = PRBS(order, rnd.choice([2 ** order - 1, 100, 64]), seed=rnd.randrange(1, 100))
